@@ -1,6 +1,8 @@
 """Human-written texts for MANIFEST.json."""
 ENGINES = [
-    {"name": "S5-chainsim", "path": "/verif/sim/chainsim", "serves_properties": ["C06", "C07", "C08", "C09", "C10", "C11"],
+    {"name": "S4-poolsim", "path": "/verif/sim/poolsim", "serves_properties": ["C19"],
+     "kind_free_text": "controlled-scheduler simulation of the real TxPool: tx_pool.go is AST-rewritten at build time (tools/rewrite) so that every lock, channel op, select, go statement, ticker, clock read and pool-map range is a scheduler decision drawn from the tape; real goroutines, one runnable at a time, inside a synctest bubble; optional -race build"},
+    {"name": "S5-chainsim", "path": "/verif/sim/chainsim", "serves_properties": ["C04", "C06", "C07", "C08", "C09", "C10", "C11", "C16"],
      "kind_free_text": "whole-node deterministic simulation: three real core.Core (prime/region/zone) in one synctest bubble; seeded scheduler owns mining, head selection (forks/reorgs), delivery, storage (SimDisk) and the worker refresh; rapid tape = replay"},
     {"name": "S2-triesim", "path": "/verif/sim/triesim", "serves_properties": ["C18"],
      "kind_free_text": "seeded trie histories with restart / crash-at-write-prefix / proof-corruption faults against a map model with per-root snapshots"},
@@ -65,5 +67,24 @@ META = {
         "technique": "deterministic whole-node simulation with a byzantine block rewriter (seal reused on changed content) plus independent PoW recomputation for every accepted block",
         "text": "Exploration of the blake3 clause: reused seals on changed content are refused; every accepted block's hash is recomputed by the harness and compared with the target of its declared difficulty.",
         "note": "AuxPoW / progpow / kawpow clauses are not decided (engines not run in this harness); said so in evidence assumptions.",
+    },
+    "C19": {
+        "engine": "S4-poolsim", "design_ref": "DESIGN.md section 4 C19, section 2.4",
+        "technique": "deterministic simulation with a seeded goroutine scheduler (yield points at every lock/channel/select/go/ticker of the rewritten pool), invariants at quiescence, sequential reference model, race-detector batches",
+        "text": ("Exploration over schedules and histories: the real pool's goroutines are parked at every synchronisation point and released one at a time by the tape, so a run is an exact interleaving that replays; structural invariants are checked at every quiescent point, deadlock is a decided outcome, panics are caught, "
+                 "and the thorough tier re-runs tapes under the race detector."),
+        "note": "Schedules sampled, not enumerated. One open known finding (replacement through a full pool). Oracle readings chosen conservatively are listed in the evidence assumptions.",
+    },
+    "C04": {
+        "engine": "S5-chainsim", "design_ref": "DESIGN.md section 4 C04",
+        "technique": "deterministic whole-node simulation (zone, region and prime cores, forks and reorgs at every level); history check of emitted/delivered/executed ETXs against a FIFO queue model",
+        "text": "Exploration: seeded multi-level histories (several zone blocks between coincident blocks, forks and reorgs) with coinbase and conversion ETXs travelling zone -> prime -> zone; exactly-once, FIFO order, unaltered-in-transit and bounded-liveness are checked on the recorded history of the final canonical chain.",
+        "note": "Single slice only: cross-zone routing and 'delivered to another zone' are not exercised (stated in evidence assumptions).",
+    },
+    "C16": {
+        "engine": "S5-chainsim", "design_ref": "DESIGN.md section 4 C16",
+        "technique": "deterministic whole-node simulation; scope invariants on account state and UTXO set after every head change",
+        "text": "Exploration of the state clauses: no out-of-zone or Qi-ledger account appears in zone state, every UTXO owner is an in-zone Qi address, in seeded histories with conversions, Qi coinbases and reorgs.",
+        "note": "Constructor/decoder agreement and CREATE/CREATE2 scoping are not decided here.",
     },
 }
